@@ -252,7 +252,7 @@ def sign_rule(tree_fn):
     return l, opn, r, const(pos), const(neg)
 
 
-def gen(repo):
+def gen_main(repo):
     out = []
     out.append("(* generated by tools/py2coq/t3_decomposer.py from xeofs/linalg/decomposer.py and\n"
                "   xeofs/linalg/_numpy/_svd.py -- regenerated on every check; do not edit *)\n"
@@ -376,6 +376,42 @@ def gen(repo):
                     if isinstance(s2, ast.If) and try_dotted(s2.test) == "use_dask" and raises_kind(s2.body):
                         dk = True
         out.append("Definition %s_variance_refused_with_dask : bool := %s.\n" % (pfx, "true" if dk else "false"))
+    return out
+
+
+def solver_options(fit):
+    """every option the fit routine itself puts into the back-end's keyword arguments, in source order:
+    ("merge", key, value) for `solver_kwargs | {key: value}` and ("default", key, value) for solver_kwargs.setdefault(key, value)"""
+    found = []
+    for n in ast.walk(ast.Module(body=list(fit), type_ignores=[])):
+        if isinstance(n, ast.BinOp) and isinstance(n.op, ast.BitOr) and isinstance(n.right, ast.Dict) and "solver_kwargs" in ast.unparse(n.left):
+            for k, v in zip(n.right.keys, n.right.values):
+                if not (isinstance(k, ast.Constant) and isinstance(k.value, str)):
+                    raise TransError("non-literal option key: %s" % ast.unparse(n))
+                found.append((n.lineno, n.col_offset, "merge", k.value, ast.unparse(v)))
+        elif isinstance(n, ast.Call) and isinstance(n.func, ast.Attribute) and n.func.attr == "setdefault" and "kwargs" in ast.unparse(n.func.value):
+            if len(n.args) != 2 or not (isinstance(n.args[0], ast.Constant) and isinstance(n.args[0].value, str)):
+                raise TransError("setdefault shape: %s" % ast.unparse(n))
+            found.append((n.lineno, n.col_offset, "default", n.args[0].value, ast.unparse(n.args[1])))
+        elif isinstance(n, (ast.Assign, ast.AugAssign)) and any(isinstance(t, ast.Subscript) and "solver_kwargs" in ast.unparse(t.value)
+                                                               for t in (n.targets if isinstance(n, ast.Assign) else [n.target])):
+            raise TransError("solver_kwargs[...] assigned directly: %s" % ast.unparse(n))
+        elif isinstance(n, ast.Call) and isinstance(n.func, ast.Attribute) and n.func.attr in ("update", "pop") and "solver_kwargs" in ast.unparse(n.func.value):
+            raise TransError("solver_kwargs mutated: %s" % ast.unparse(n))
+    found.sort()
+    return [(k, key, val) for _, _, k, key, val in found]
+
+
+def gen(repo):
+    out = gen_main(repo)
+    for pfx, rel, cls, fitname in (("dec", "xeofs/linalg/decomposer.py", "Decomposer", "fit"),
+                                   ("svd", "xeofs/linalg/_numpy/_svd.py", "_SVD", "fit_transform")):
+        tree, _ = parse_file(repo, rel)
+        fit = body_nodoc(find_func(find_class(tree, cls), fitname))
+        opts = solver_options(fit)
+        out.append("(* options the fit routine itself hands to the SVD back-ends, in source order *)")
+        out.append("Definition %s_solver_options : list (string * string * string) :=\n  [%s].\n"
+                   % (pfx, ";\n   ".join('("%s"%%string, "%s"%%string, "%s"%%string)' % (k, key, val.replace('"', "'")) for k, key, val in opts)))
     # sign rule of _svd.get_deterministic_sign_multiplier
     tree, _ = parse_file(repo, "xeofs/linalg/_numpy/_svd.py")
     l, opn, r, pos, neg = sign_rule(find_func(tree, "get_deterministic_sign_multiplier"))
